@@ -216,6 +216,17 @@ class Scenario(apiworld.ApiWorld):
                 bad.append(v)
         # let shutdown() itself finish (the network stays as it is: pending connects stay pending)
         t_stop = L.time() + 10.0
+        if self.p.get("prompt_reinit") == "before-settle":
+            # turn by turn, so that the very iteration in which shutdown() returns is not run past
+            n = 0
+            while self.shutdown_state != "returned" and L.has_ready() and n < 10000:
+                L.turn()
+                chk()
+                n += 1
+            if bad:
+                return bad[0]
+            if self.shutdown_state == "returned":
+                return self._reinit_oracle(prompt=True)
         L.settle()
         chk()
         if self.shutdown_state != "returned":
